@@ -10,7 +10,8 @@ def decC : Sexp → Option ConstraintSt
   | .atom "malformed" => some .malformed | .atom "ok" => some .ok | _ => none
 def decI : Sexp → Option InputSt
   | .atom "none" => some .none | .atom "several" => some .several
-  | .list [.atom "given", a, b] => do pure (.given (← asBool? a) (← asBool? b))
+  | .list [.atom "given", a, .atom "error"] => do pure (.given (← asBool? a) .error)
+  | .list [.atom "given", a, b] => do pure (.given (← asBool? a) (if (← asBool? b) then .sat else .unsat))
   | _ => none
 
 def handle : List Sexp → Sexp
